@@ -100,6 +100,41 @@ Theorem c18_end_is_final : forall h1 n w v0 h2 c,
          (trace (run init ((h1 ++ Watch n :: h2) ++ [Next w])) c).
 Proof. exact end_is_final. Qed.
 
+(* ---- concurrency: why sequential histories are the right domain ----
+   The theorems above speak about sequential histories.  A concurrent execution of the real
+   service is one of them (is linearizable) because of the following facts about the code, none
+   of which is proved here - tokio's RwLock and watch channel are assumed:
+   (L1) every operation acquires the service's tokio RwLock exactly ONCE - write() in
+        set_service_status and clear_service_status, read() in service_health (check) and in
+        watch - and does all of its work on the map under that one guard: the lookup, the
+        tx.send or the insert of a fresh channel, the remove (which drops the Sender, i.e. closes
+        the channel), the borrow of the value, the clone of the Receiver.  There is no .await
+        between acquiring the guard and dropping it.  So each operation takes effect atomically
+        at its acquisition, writers exclude everybody, and the order of acquisitions is a
+        sequential history.
+   (L2) a poll of a response stream touches only its own watch channel.  Sender::send stores the
+        value and bumps the version under the channel's internal lock, borrow_and_update reads
+        value and version under that lock, changed() loads version and closed bit from one
+        atomic word: a poll is atomic with respect to send and to the drop of the Sender, both of
+        which happen inside (L1)'s critical sections.
+   (L1) is what a "fast path" that looks up under read() and inserts under a later write() breaks.
+   It is sampled on every run by the interleaving tier of h_health: each kind of operation is
+   run in a spawned task that is switched out (cooperative budget exhausted) at each of its lock
+   acquisitions in turn while another task sets / watches+polls / clears / checks the same name;
+   the outcome must be the model's outcome for one of the sequential histories with the
+   operation atomic.  That comparison is [obs_linearizable]; the next two statements say what
+   it decides. *)
+Theorem c18_obs_linearizable_sound : forall cands t,
+  obs_linearizable cands t = Nn 1 -> exists c, In c cands /\ tr_eqb (lin_obs c) t = true.
+Proof. exact obs_linearizable_sound. Qed.
+Theorem c18_lin_obs_is_sequential : forall pre a post,
+  exists xa tpost,
+    trace init (pre ++ a :: post) = trace init pre ++ (a, xa) :: tpost /\
+    lin_obs (pre, a, post) =
+      Nd (map (fun x => lin_out_tr (snd x)) (trace init pre)
+          ++ map (fun x => lin_out_tr (snd x)) tpost ++ [lin_out_tr xa]).
+Proof. exact lin_obs_is_sequential. Qed.
+
 (* ---- non-vacuity: the hypotheses are satisfiable on non-trivial histories ---- *)
 (* a stream on "a" opened while "a" is NOT_SERVING, after the default stream on "" *)
 Example c18_subscribed_holds :
